@@ -8,6 +8,7 @@ import C09_prog as P
 
 ID = 'C09'
 GEN = [('Gen/C09_Excutils.v', gen_C09.generate)]
+EQUIV_FILES = ['Proofs/C09.v']
 EXTRACT = 'Extract/C09_x.v'
 
 def _mods():
